@@ -13,3 +13,4 @@ import NakenVerif.Props.C15
 import NakenVerif.Props.C05
 import NakenVerif.Props.C03
 import NakenVerif.Props.C13
+import NakenVerif.Props.C18
